@@ -61,6 +61,9 @@ pub enum Call
     Despawn(u8),
     /// every read-only / non-reacting world-level resource accessor in a row (must agree, must not trigger)
     WorldResReads(u8),
+    /// register a revokable no-op reactor on a type-wide trigger (kind 0 insertion, 1 mutation, 2 removal, 3 resource
+    /// mutation; second field: component / resource) and revoke it at once: the probe reactors must be unaffected
+    RegRevoke(u8, u8),
 }
 
 #[derive(Debug, Clone, PartialEq, Eq, Hash, Serialize, Deserialize)]
@@ -160,6 +163,22 @@ fn world_level(c: &mut Commands, call: Call) -> bool
         Call::WorldResNoreact(0, v) => c.queue(move |w: &mut World| w.react_resource_mut_noreact::<RA>().set(v)),
         Call::WorldResNoreact(_, v) => c.queue(move |w: &mut World| w.react_resource_mut_noreact::<RB>().set(v)),
         Call::Despawn(e) => { let e = pool_entity(e); c.queue(move |w: &mut World| { if let Ok(em) = w.get_entity_mut(e) { em.despawn(); } }); }
+        Call::RegRevoke(kind, x) => c.queue(move |w: &mut World| {
+            w.react(|rc| {
+                let token = match (kind % 4, x % 2)
+                {
+                    (0, 0) => rc.on_revokable(insertion::<CA>(), || {}),
+                    (0, _) => rc.on_revokable(insertion::<CB>(), || {}),
+                    (1, 0) => rc.on_revokable(mutation::<CA>(), || {}),
+                    (1, _) => rc.on_revokable(mutation::<CB>(), || {}),
+                    (2, 0) => rc.on_revokable(removal::<CA>(), || {}),
+                    (2, _) => rc.on_revokable(removal::<CB>(), || {}),
+                    (_, 0) => rc.on_revokable(resource_mutation::<RA>(), || {}),
+                    (_, _) => rc.on_revokable(resource_mutation::<RB>(), || {}),
+                };
+                rc.revoke(token);
+            });
+        }),
         Call::WorldResReads(0) => c.queue(|w: &mut World| world_reads::<RA>(w)),
         Call::WorldResReads(_) => c.queue(|w: &mut World| world_reads::<RB>(w)),
         _ => return false,
@@ -524,6 +543,7 @@ impl Model
                 Call::WorldResNoreact(r, v) => { exp.cells.push(name); queue.push(Queued::ResSet(r, v)); }
                 Call::Despawn(e) => { exp.cells.push(name); queue.push(Queued::Despawn(e % n)); }
                 Call::WorldResReads(_) => { exp.cells.push(name); }
+                Call::RegRevoke(..) => { exp.cells.push(name); }
             }
         }
         for q in queue
@@ -731,9 +751,10 @@ pub fn decode(bytes: &[u8], max_steps: usize, max_calls: usize) -> AccCase
             let call = if k % 5 == 4
             {
                 // world-level
-                match below(byte(&mut u), 8)
+                match below(byte(&mut u), 9)
                 {
                     7 => Call::WorldResReads(r),
+                    8 => Call::RegRevoke((k / 5) % 4, r),
                     0 | 1 => Call::Insert(e, c, v),
                     2 => Call::TriggerMutation(e, c),
                     3 => Call::TriggerRes(r),
